@@ -11,6 +11,7 @@ import (
 	"math"
 	"strconv"
 	"strings"
+	"sync"
 	"time"
 
 	"github.com/goghcrow/yae/ext"
@@ -397,6 +398,48 @@ func runC20(r *Run) {
 			put("t", val.Time(time.Unix(86400, 0)))
 		}
 		return ve, LS(xs)
+	}
+	// one compiled criteria shared by several callers at once: every caller's text depends on ITS environment only
+	for k := 0; k < 12; k++ {
+		t := g.tree(2 + r.Rng.Intn(3))
+		var f func(v interface{}) (string, error)
+		if pan, _ := protect(func() { f = ext.CompileToSql(t.crit(), sqlModelEnv()) }); pan || f == nil {
+			continue
+		}
+		envs := make([]*val.Env, 8)
+		want := make([]string, 8)
+		for j := range envs {
+			ve := val.NewEnv()
+			ve.Put("lim", val.Num(float64(1000+j)))
+			ve.Put("d", val.Num(float64(2000+j)))
+			ve.Put("who", val.Str(fmt.Sprintf("caller-%d", j)))
+			ve.Put("t", val.Time(time.Unix(int64(86400*(j+1)), 0)))
+			envs[j] = ve
+			protect(func() { want[j], _ = f(ve) })
+		}
+		bad := make([]string, 8)
+		var wg sync.WaitGroup
+		for j := range envs {
+			wg.Add(1)
+			go func(j int) {
+				defer wg.Done()
+				defer func() { recover() }()
+				for it := 0; it < 3000; it++ {
+					if s, _ := f(envs[j]); s != want[j] {
+						bad[j] = s
+						return
+					}
+				}
+			}(j)
+		}
+		wg.Wait()
+		r.Count("criteria shared by concurrent callers")
+		for j, b := range bad {
+			if b != "" {
+				r.Violate("text-depends-on-concurrent-callers", string(t.Sx()), fmt.Sprintf("caller %d got %q while running alone it gets %q", j, trunc(b, 200), trunc(want[j], 200)))
+				break
+			}
+		}
 	}
 	for i := 0; i < n; i++ {
 		t := g.tree(r.Rng.Intn(5))
